@@ -149,7 +149,8 @@ Proof.
   - (* OpReset *)
     injection E as <- <- <-. unfold heap_inv. cbn [do_local do_set do_ds live staticSize inBuffSize outBuffSize].
     split; [ | split; assumption ].
-    rewrite R, clear_live. unfold local_bytes, set_bytes. cbn [do_local do_set]. lia.
+    rewrite live_after_app, R, clear_live. unfold local_bytes, set_bytes, set_free_events. cbn [do_local do_set].
+    destruct (do_set d) as [h | ]; unfold hs_bytes; rewrite ?la_free, ?la_nil; lia.
   - (* OpCopyFrom *)
     injection E as <- <- <-. cbn. split; [ reflexivity | split; assumption ].
 Qed.
@@ -209,17 +210,18 @@ Proof.
   unfold free_events. rewrite !live_after_app. unfold owned.
   replace (sizeof_ZSTD_DCtx + (local_bytes d' + set_bytes d' + live (do_ds d')))
     with ((sizeof_ZSTD_DCtx + set_bytes d' + live (do_ds d')) + local_bytes d') by lia.
-  rewrite clear_live. unfold set_bytes. destruct (do_set d') as [h | ]; unfold hs_bytes; cbn [app]; rewrite ?la_free, ?la_nil; lia.
+  rewrite clear_live. unfold set_bytes, set_free_events. destruct (do_set d') as [h | ]; unfold hs_bytes; cbn [app]; rewrite ?la_free, ?la_nil; lia.
 Qed.
 
 (* a STATIC context: whatever is asked of it - internal dictionary creation, the multi-DDict mode (directly or smuggled
    in through ZSTD_copyDCtx), references, frames of any size, resets - it never calls the allocator *)
-Definition static_inv (d : downer) : Prop := dctx_is_static d = true /\ do_local d = None.
+Definition static_inv (d : downer) : Prop := dctx_is_static d = true /\ do_local d = None /\ do_set d = None.
 
-Lemma static_step d o d' rc es : static_inv d -> down_step d o = (d', rc, es) -> es = [] /\ static_inv d' /\ do_set d' = do_set d.
+Lemma static_step d o d' rc es : static_inv d -> down_step d o = (d', rc, es) -> es = [] /\ static_inv d'.
 Proof.
-  intros [Hs Hl] E. unfold static_inv.
+  intros (Hs & Hl & Hset) E. unfold static_inv.
   assert (Hc : clear_events d = []) by (unfold clear_events; rewrite Hl; reflexivity).
+  assert (Hf : set_free_events d = []) by (unfold set_free_events; rewrite Hset; reflexivity).
   destruct o as [b | id | | size byRef | size | w fcs | | m u]; cbn [down_step] in E.
   - rewrite Hs in E. injection E as <- <- <-. auto.
   - destruct (do_multi d); rewrite ?Hs in E; injection E as <- <- <-; rewrite Hc; auto.
@@ -227,7 +229,7 @@ Proof.
   - unfold load_step in E. destruct (size =? 0); rewrite ?Hs in E; injection E as <- <- <-; rewrite Hc; auto.
   - unfold load_step in E. destruct (size =? 0); rewrite ?Hs in E; injection E as <- <- <-; rewrite Hc; auto.
   - destruct (frame_dict_step d) as [d0 e0] eqn:E0.
-    assert (F0 : e0 = [] /\ dctx_is_static d0 = true /\ do_local d0 = None /\ do_set d0 = do_set d /\ do_ds d0 = do_ds d).
+    assert (F0 : e0 = [] /\ dctx_is_static d0 = true /\ do_local d0 = None /\ do_set d0 = None /\ do_ds d0 = do_ds d).
     { unfold frame_dict_step in E0. destruct (do_uses d); injection E0 as <- <-; rewrite ?Hc; unfold dctx_is_static in *; cbn; auto. }
     destruct F0 as (-> & Hs0 & Hl0 & Hset0 & Hds0).
     pose proof (load_header_facts (do_ds d0) w fcs) as F.
@@ -239,7 +241,7 @@ Proof.
       { unfold dctx_is_static in Hs0. destruct (N.eqb_spec (staticSize (do_ds d0)) 0); [ discriminate | assumption ]. }
       destruct (Hst NZ) as [-> _]. injection E as <- <- <-. split; [ reflexivity | ].
       unfold dctx_is_static, set_ds in *. cbn [do_ds do_local do_set]. rewrite Ms. auto.
-  - injection E as <- <- <-. rewrite Hc. split; [ reflexivity | ]. unfold dctx_is_static in *. cbn. auto.
+  - injection E as <- <- <-. rewrite Hc, Hf. split; [ reflexivity | ]. unfold dctx_is_static in *. cbn. auto.
   - injection E as <- <- <-. auto.
 Qed.
 
@@ -250,22 +252,22 @@ Lemma static_dctx_never_allocates_l :
     all_events outs = [] /\ do_local d' = None /\ do_set d' = None.
 Proof.
   intros ops staticSz d' outs NZ.
-  assert (H0 : static_inv (down0 staticSz) /\ do_set (down0 staticSz) = None).
-  { split; [ split; [ | reflexivity ] | reflexivity ]. unfold dctx_is_static, down0, dstate0. cbn.
+  assert (H0 : static_inv (down0 staticSz)).
+  { split; [ | split; reflexivity ]. unfold dctx_is_static, down0, dstate0. cbn.
     destruct (N.eqb_spec staticSz 0); [ contradiction | reflexivity ]. }
   revert H0. generalize (down0 staticSz) as d. revert d' outs.
-  induction ops as [ | o rest IH]; intros d' outs d [Hi Hset] E; cbn [down_run] in E.
-  - injection E as <- <-. destruct Hi. auto.
+  induction ops as [ | o rest IH]; intros d' outs d Hi E; cbn [down_run] in E.
+  - injection E as <- <-. destruct Hi as (_ & ? & ?). auto.
   - destruct (down_step d o) as [[d1 rc] es] eqn:E1. destruct (down_run d1 rest) as [d2 outs2] eqn:E2.
-    injection E as <- <-. destruct (static_step d o d1 rc es Hi E1) as (-> & Hi1 & Hset1).
-    destruct (IH d2 outs2 d1 (conj Hi1 (eq_trans Hset1 Hset)) E2) as (A & B & C).
+    injection E as <- <-. destruct (static_step d o d1 rc es Hi E1) as (-> & Hi1).
+    destruct (IH d2 outs2 d1 Hi1 E2) as (A & B & C).
     unfold all_events in *. cbn [flat_map snd app]. auto.
 Qed.
 
 (* non-vacuity: a history that exercises the local dictionary, 17 distinct DDicts (one table doubling), a replacement,
-   two frames and a reset; the model's numbers are the ones the harness observes on the real code *)
+   frames, and a reset that drops the first set (fix b70602d); the model's numbers are the ones the harness observes on the real code *)
 Definition example_ops : list dop :=
-  [OpMulti true] ++ map (fun k => OpRef (N.of_nat k)) (seq 1 17) ++ [OpRef 3; OpLoad 1000 false; OpFrame 1024 D_UNKNOWN; OpPrefix 64; OpFrame 2048 D_UNKNOWN; OpFrame 2048 D_UNKNOWN; OpReset; OpFrame 4096 D_UNKNOWN].
+  [OpMulti true; OpRef 99; OpReset; OpMulti true] ++ map (fun k => OpRef (N.of_nat k)) (seq 1 17) ++ [OpRef 3; OpLoad 1000 false; OpFrame 1024 D_UNKNOWN; OpPrefix 64; OpFrame 2048 D_UNKNOWN; OpFrame 2048 D_UNKNOWN; OpFrame 4096 D_UNKNOWN].
 
 Example example_history :
   let '(d, outs) := down_run (down0 0) example_ops in
